@@ -328,6 +328,28 @@ register(PropertySpec(
 ))
 
 
+from . import values
+
+register(PropertySpec(
+    id="C19",
+    title="values are not truth: falsy values are handled like any other value",
+    rules=[
+        Rule("VALUE-TRUTH", values.rule_value_truth, 10,
+             "filter sites (mapping generators that drop a row on the truthiness of the mapped value) are discovered; "
+             "every evaluation call site is classified value/condition by the resolved field of its receiver; at every "
+             "value-role site the callee is entered through a value-role entry whose per-class constant switches the "
+             "filter off exactly for the filter-owning classes"),
+    ],
+    explanation="An effect property: in which positions may a value's truthiness decide whether a row survives. The "
+                "positions are the evaluation call sites; their role is the resolved dataclass field of the receiver "
+                "(annotation-derived, frozen overrides with reasons). The obligation is checked by constant propagation "
+                "of the per-class flag into the callee's filter. If it holds at all sites the property reduces to "
+                "C01/C02/C11/C13/C16 on data that happens to be falsy.",
+    assumptions=["predicate-function / Predicate outputs are conditions by nature (their falsy outputs are 'false')"],
+    design_ref="DESIGN.md §2 C19",
+))
+
+
 def _attach_sensitivity():
     from ..props import SPECS
     from .. import variants
